@@ -6,6 +6,7 @@ from .. import model, lcfrs
 from ..runner import Result, scratch
 from ..bridge import quiet
 
+from trees import grammarconst
 from trees import grammar, grammaroutput
 
 ID = 'C07'
@@ -135,7 +136,20 @@ def check_extracted(mtj, cfg):
     out = []
     eg, _ = lcfrs.ref_extract([mt])
     try:
-        result = run_binarize({f: {l: dict(v) for l, v in lins.items()} for f, lins in eg.items()}, cfg)
+        if mt.n() % 2 == 1:
+            # a grammar with a history: loaded from a grammar file (rules carry the dummy context only) and extended
+            # by extraction afterwards (real contexts next to it) - here every other rule is a loaded one and
+            # every fourth one was seen again after loading.  The reference grammar is changed, the copy handed to
+            # the tool is made from it.
+            for k, f in enumerate(sorted(eg)):
+                for l in eg[f]:
+                    if k % 2 == 0:
+                        n = sum(eg[f][l].values())
+                        keep = dict(eg[f][l]) if k % 4 == 0 else {}
+                        eg[f][l] = dict(keep)
+                        eg[f][l][grammarconst.DEFAULT_VERT] = n
+        g0 = {f: {l: dict(v) for l, v in lins.items()} for f, lins in eg.items()}
+        result = run_binarize(g0, cfg)
         lost = check_chains(eg, result, cfg)
         if lost:
             out.append({'kind': 'yield-changed', 'where': 'grammar.binarize', 'case': case,
